@@ -11,7 +11,8 @@ EXPLANATION = (
     "and the context passed, closed under a fix-point over the call graph; each (role, context) reaching a gate is "
     "checked against a Lua/Luau grammar oracle Unsafe(role); (d) every constructor of a unary operator from a "
     "formatted operand tests for a leading minus. All feature configurations. Not decided: widths (which layout "
-    "path a given input takes), multi-value positions beyond treating every whole expression as one.")
+    "path a given input takes), multi-value positions beyond treating every whole expression as one."
+    "Later rounds: The oracle also knows `Unary(op)[IfExpression|TypeAssertion]`: a unary operator over a greedy operand keeps its parentheses at every operator role.")
 ASSUMPTIONS = ["the grammar oracle r_paren.unsafe() restates Lua 5.1-5.4/Luau operator precedence and multi-value "
                "truncation", "only `^` and `..` are right associative (BinOp::is_right_associative)",
                "rustc MIR and Instance::try_resolve are trusted"]
